@@ -50,13 +50,30 @@ def pick(rng, w):
 # Off by default so that the unrepaired tree passes; make it the default (and add `lrumap:S P,1,5 PG,1,1 G,1` to the corpus) once repaired.
 SELF_ALIAS = os.environ.get("VERIF_C17_SELF_ALIAS", "1") == "1"   # on by default since the repair (fixes/C17/04) is in /repo
 
+ALIAS = {"cache_alias_calls": 0, "cache_alias_calls_destroying_the_aliased_entry": 0, "tree_alias_calls": 0}
+
 def gen_lru(rng, ismap, nops):
-    """spec-tracking generator: pop only on a non-empty cache; keys mostly present"""
+    """spec-tracking generator: pop only on a non-empty cache; keys mostly present.
+    Map histories of the 'aliasing' flavour store many values equal to a key (often the entry's own key) and call
+    members with a key argument that is a reference into the cache (@OP,j = OP(get(j), ..))."""
     l = []                                  # reference recency list of keys, front = MRU
+    vals = {}                               # key -> stored value (maps)
     nk = rng.choice([1, 2, 3, 4, 6, 8, 8, 40])   # 40: the unordered_map index grows through several rehashes
     if nk == 40: nops += 40
     mode = rng.below(4)                     # 0 mixed, 1 put/pop (eviction order), 2 touch/erase interleavings, 3 absent-key errors
+    aliasing = ismap and rng.below(100) < 40
     ops = []
+    def newval(k):
+        if not aliasing: return 1 + rng.below(9)
+        r = rng.below(100)
+        return k if r < 45 else rng.below(nk) if r < 85 else 1 + rng.below(9)
+    def apply(name, k):
+        if k in l:
+            if name in ("T", "TI", "GT"): l.remove(k); l.insert(0, k)
+            elif name in ("E", "EI"): l.remove(k); vals.pop(k, None)
+    def do_put(k, v):
+        if k in l: l.remove(k)
+        l.insert(0, k); vals[k] = v
     while len(ops) < nops:
         if nk == 40 and len(ops) < 30: w = [("P", 1)]
         elif mode == 1: w = [("P", 40), ("O", 25), ("T", 10), ("GT", 8), ("S", 4), ("X", 4), ("C", 1)]
@@ -67,31 +84,48 @@ def gen_lru(rng, ismap, nops):
         if not ismap and name in ("G", "GT"): continue
         if name in ("S", "C"):
             ops.append(name)
-            if name == "C": l = []
+            if name == "C": l = []; vals.clear()
             continue
         if name == "O":
             if not l: continue
-            ops.append("O"); l.pop(); continue
+            ops.append("O"); vals.pop(l.pop(), None); continue
         present_bias = 25 if mode == 3 else 80
         if name != "P" and l and rng.below(100) < present_bias: k = rng.choice(l)
         else: k = rng.below(nk)
+        if aliasing and l and rng.below(100) < 45:
+            # the key argument is a reference into the cache: the stored value of j, as returned by get(j)
+            j = rng.choice(l) if rng.below(100) < 92 else rng.below(nk)
+            ALIAS["cache_alias_calls"] += 1
+            if j in l and vals[j] == j and name in ("P", "E", "EI"): ALIAS["cache_alias_calls_destroying_the_aliased_entry"] += 1
+            if name == "P":
+                if rng.below(100) < 30:
+                    j2 = j if rng.below(100) < 50 else rng.choice(l)      # put(get(j), get(j2)): key and value both alias
+                    ops.append("@PG,%d,%d" % (j, j2))
+                    if j in l and j2 in l: do_put(vals[j], vals[j2])
+                else:
+                    v = newval(vals.get(j, 0))
+                    ops.append("@P,%d,%d" % (j, v))
+                    if j in l: do_put(vals[j], v)
+            else:
+                ops.append("@%s,%d" % (name, j))
+                if j in l: apply(name, vals[j])
+            continue
         if name == "P":
             if ismap and l and rng.below(100) < 12:
-                # put(k, get(j)): the value argument is a reference to the stored value of another key j.
-                # j == k (the entry put() itself erases) is generated only when SELF_ALIAS is set, see the report.
+                # put(k, get(j)): the value argument is a reference to the stored value of a key j (j == k: the
+                # entry put() itself erases)
                 j = rng.choice(l) if rng.below(100) < 85 else rng.below(nk)
                 if j == k and not SELF_ALIAS: j = (k + 1) % max(nk, 2)
                 ops.append("PG,%d,%d" % (k, j))
                 if j not in l: continue
+                do_put(k, vals[j])
             else:
-                ops.append("P,%d,%d" % (k, 1 + rng.below(9)) if ismap else "P,%d" % k)
-            if k in l: l.remove(k)
-            l.insert(0, k)
+                v = newval(k)
+                ops.append("P,%d,%d" % (k, v) if ismap else "P,%d" % k)
+                do_put(k, v)
         else:
             ops.append("%s,%d" % (name, k))
-            if k in l:
-                if name in ("T", "TI", "GT"): l.remove(k); l.insert(0, k)
-                elif name in ("E", "EI"): l.remove(k)
+            apply(name, k)
     var = rng.choice(["", "", "S", "T"] if ismap else ["", "", "S", "A"])
     return ("lrumap" if ismap else "lruset") + (":" + var if var else "") + " " + " ".join(ops)
 
@@ -113,6 +147,7 @@ def gen_splay(rng, dup, nops):
         if name in ("C", "T"): ops.append(name)
         else:
             if name == "E" and rng.below(100) < 35: name = "EN"      # erase(const Node*) on the node returned by find()
+            elif rng.below(100) < 15: name = "@" + name; ALIAS["tree_alias_calls"] += 1   # key argument = reference to the key of the node find(k) returns
             ops.append("%s,%d" % (name, rng.below(nk)))
     var = rng.choice(["", "", "G", "D", "A", "F"])
     return ("splaymulti" if dup else "splayset") + (":" + var if var else "") + " " + " ".join(ops)
@@ -161,7 +196,7 @@ samples = []
 evaluations = 0
 
 def nontrivial(kind, case, line):
-    toks = case.split()[1:]
+    toks = [t.lstrip("@") for t in case.split()[1:]]
     outs = line.split("|")[0].split(" ")
     if kind.startswith("splay"):
         # an erase that removed a key from a tree of >= 3 nodes (second splay + join), or any operation after a clear()
@@ -276,7 +311,7 @@ else:
 if pr is not None and not pr["ok"]:
     ck.proof_broken(found)
 
-stats_out = dict(stats); stats_out["exhaustive_block_sizes"] = exh_counts
+stats_out = dict(stats); stats_out["exhaustive_block_sizes"] = exh_counts; stats_out.update(ALIAS)
 ck.finish({
     "evaluations": evaluations,
     "distinct_nontrivial": len(distinct),
